@@ -25,6 +25,7 @@ import warnings
 import numpy as np
 
 from .. import cases, vinegen
+from .. import vinedatagen
 from .. import vinestruct as VS
 from .. import vinedata as VD
 
@@ -802,6 +803,7 @@ def _run(ctx):
     vinegen.record(ctx, kstatus, ['gen_identify_eds_ing', 'gen_get_conditional_uni'])
     ctx.copy_src('Props/C17.v')
     compiled = ctx.compile(['Gen_vineclip.v', 'Gen_vinekernel.v', 'C17.v'])
+    compiled = vinedatagen.hook(ctx, kstatus) and compiled      # data plane generated from the AST: Gen_vinedata.v, Props/C17_data.v
     ctx.rule('fits: VineCopula(type).fit(vinestruct.make_table(seed, d, n, kind), truncated=t) for type in center/direct/regular, d = 2..6, t in {1,2,3,d-1}, '
              'n = 60..100 rows, table kinds Gaussian / strongly dependent / heavy-tailed / non-linear / independent / rounded (ties), plus three fixed tables whose '
              'fitted structure is the witness of a refutation theorem; arrays tagged by content; np.empty of copulas.multivariate.tree / vine replaced by logging '
